@@ -249,7 +249,7 @@ theorem state_below_floor_notfound (c : Cfg) (s : St) (n : Nat) (hs : s.mem.floo
   | some h => simp [hs, hn]
 
 /-- The retention probe tells the truth wherever nothing half-deleted is on disk. -/
-theorem probe_truthful {c : Cfg} {s : St} {h a : Nat} (hh : s.db.height = some h) (I : InvA c s h a)
+theorem probe_truthful {c : Cfg} {s : St} {h a : Nat} (I : InvA c s h a)
     (n : Nat) (hd : dirty c s.job n = false) (hp : answer c s .requireRetained n = .ok)
     (q : Q) (hq : q.blockLevel = true) : answer c s q n = .ok := by
   have hc : s.db.has .comm n = true := by
